@@ -495,6 +495,13 @@ theorem load_ports {src : Src} {n : Nat} {pfx : String} {a : Nat} {st : St} {a' 
   rw [hss]
   exact (addIO_ports hio).1
 
+/-- the port list of a loaded component carries the sequence names of the declaration, in order -/
+theorem load_port_names {src : Src} {n : Nat} {pfx : String} {a : Nat} {st : St} {a' : Nat}
+    (h : load src n pfx a = .ok (st, a')) :
+    (st.inputSeqs ++ st.outputSeqs).map (·.name) = (src.inputs ++ src.outputs).map (·.seq) := by
+  obtain ⟨s, hadd, hio⟩ := load_inv h
+  exact (addIO_ports hio).2
+
 theorem load_codes {tbl : CodeTable} {src : Src} {n : Nat} {pfx : String} {a : Nat} {st : St} {a' : Nat}
     (h : load src n pfx a = .ok (st, a')) (hn : StmtNamesOk src = true) (hc : CodesOk tbl src = true) :
     CodesInv tbl st := by
